@@ -373,3 +373,8 @@ def run(repo, run, tier):
     native_multi = [k for k in keys if "_" in k and all(w in spec for w in k.split("_"))]
     for k in sorted(native_multi):
         run.ok(R5, "typemap[%s]:direct" % k)
+    # the expression parser/printer is shared with enum values: operator table and printers (C11.R4, C11.R5)
+    R6 = run.rule("C09.R6", "expression grammar: operator semantics and structure-preserving printing (C11.R4, C11.R5)")
+    from checks import c11
+    from sa.report import import_rules
+    import_rules(run, R6, c11, repo, {"C11.R4", "C11.R5"}, only=lambda c: c.startswith(("declast.", "todict.")))
